@@ -5,3 +5,4 @@ open Pcore.Syntax
 #print axioms C05_regexp_escaped_slash_fails
 #print axioms C05_regexp_raw_newline_fails
 #print axioms C05_int
+#print axioms C05_value_roundtrip
